@@ -129,7 +129,7 @@ def triangle(ctx):
                     worst = (res / tol, a, b, res, tol)
         r_e.check(worst is None, "order %d (%d points, %d monomials)" % (order, n, (order + 1) * (order + 2) // 2), TG, "rule", fn.lineno,
                   "order %d monomial x^%s y^%s" % ((order,) + ((worst[1], worst[2]) if worst else ("", ""))),
-                  "residual %s exceeds the precision bound %s of the printed literals" % ((str(worst[3])[:12], str(worst[4])[:12]) if worst else ("", "")))
+                  "residual %s exceeds the precision bound %s of the printed literals" % (("%.3e" % float(worst[3]), "%.3e" % float(worst[4])) if worst else ("", "")))
         if order in (1, 7, 20):
             ctx.sample({"table": "triangle", "order": order, "points": n, "monomials": (order + 1) * (order + 2) // 2})
     return evals
@@ -178,7 +178,7 @@ def gauss(ctx):
                 worst = (res / tol, d, res, tol)
         r_e.check(worst is None, "n=%d (degrees 0..%d)" % (n, 2 * n - 1), GA, "rule", fn.lineno,
                   "n=%d degree %s" % (n, worst[1] if worst else ""),
-                  "residual %s exceeds the precision bound %s" % ((str(worst[2])[:12], str(worst[3])[:12]) if worst else ("", "")))
+                  "residual %s exceeds the precision bound %s" % (("%.3e" % float(worst[2]), "%.3e" % float(worst[3])) if worst else ("", "")))
     ctx.sample({"table": "gauss", "n": nmax, "degrees": 2 * nmax})
     return evals
 
